@@ -37,10 +37,12 @@ static void LB(const char* fam, const char* op, const char* ed)
 	jBegin(); jStr("fam", fam); jStr("op", op); jStr("ed", ed); jInt("W", B_PER_W);
 }
 static int g_hung;
+static long canary_check(void);
 static void LE_(const char* cls, const char* alias)
 {
 	if (g_hung == 1) jInt("hang", 1); else if (g_hung == 2) jInt("abort", 1); else if (g_hung == 3) jInt("skip", 1);
 	g_hung = 0;
+	{ long ov = canary_check(); if (ov >= 0) jInt("overrun", ov + 1); }
 	jStr("cls", cls); jStr("alias", alias); jEnd();
 }
 #define LW(k, p, nwords) jLimbs16(k, p, (nwords) * O_PER_W)
@@ -66,7 +68,29 @@ static word alpha(int i)
 enum { S_ZERO, S_ONE, S_MAX, S_TWO, S_MAX1, S_HIBIT, S_HIBIT1, S_TOPONE, S_TOPONE1, S_ALT, S_RAND, S_RANDLO, NSH };
 static const char* SN[NSH] = { "zero", "one", "max", "two", "max-1", "hibit", "hibit-1", "topone", "topone-1", "alt", "rand", "randlo" };
 static size_t nshapes(size_t n) { return n == 0 ? 1 : n == 1 ? 9 : NSH; }
-static void set_fill(word* v, size_t n, word f) { size_t i; for (i = 0; i < n; ++i) v[i] = f; }
+/* output canaries: set_fill(X, n, 0x5A) on one of the static result arrays declares "the call may write n words of X";
+   the rest of the array is filled with a canary, and the end of the line (LE_) reports "overrun" if a word beyond
+   the declared length has changed (the documented output length was exceeded) */
+#define CANARY ((word)0xA7A7A7A7A7A7A7A7ull)
+static struct { word* v; size_t n; } g_can[8]; static int g_ncan = 0;
+static int is_result_array(const word* v);
+static void set_fill(word* v, size_t n, word f)
+{
+	size_t i; for (i = 0; i < n; ++i) v[i] = f;
+	if (f == 0x5A && is_result_array(v) && n <= NW && g_ncan < 8)
+	{
+		int k; for (k = 0; k < g_ncan; ++k) if (g_can[k].v == v) { g_can[k] = g_can[g_ncan - 1]; --g_ncan; break; }
+		for (i = n; i < NW; ++i) v[i] = CANARY;
+		g_can[g_ncan].v = v; g_can[g_ncan].n = n; ++g_ncan;
+	}
+}
+static long canary_check(void)
+{
+	int k; size_t i; long bad = -1;
+	for (k = 0; k < g_ncan; ++k) for (i = g_can[k].n; i < NW; ++i) if (g_can[k].v[i] != CANARY) { bad = (long)(i - g_can[k].n); goto out; }
+out:
+	g_ncan = 0; return bad;
+}
 static void mkshape(num* o, size_t n, int s)
 {
 	size_t i;
@@ -238,6 +262,7 @@ static void guard_init(void)
 
 /* ------------------------------------------------------------------ zz: additive / multiplicative */
 static word A[NW], B_[NW], C[NW], D[NW], E[NW], F[NW];
+static int is_result_array(const word* v) { return v == C || v == D || v == E || v == F; }
 
 typedef word (*f_cab)(word*, const word*, const word*, size_t);
 static void do_cab(const char* op, f_cab f, const num* a, const num* b, int alias)
